@@ -92,6 +92,33 @@ CORE_W = [14, 12, 12, 5, 4, 9, 6, 6, 1, 5, 2, 2, 3, 2, 3, 2, 2, 2, 1, 1, 3]
 REJECT_IDX = lambda n: [max(n, 1) - 1, n, n + 1, 2**31, 2**63, SIZE_MAX - 1, SIZE_MAX]
 
 
+
+def sparsify(rng, hist):
+    """CONVENTIONS addendum 2: a sparse-observation session — `obs=sparse` on the constructor line, the obs
+    section of every op then carries only status / out-values / callback log, and the content is swept only
+    by `observe` (every 5-15 operations and once before the final destroy)."""
+    if not hist or not hist[0].startswith("new"):
+        return hist
+    out = [hist[0] + " obs=sparse"]
+    gap = rng.randint(5, 15)
+    body = hist[1:-1] if hist[-1].startswith("destroy") else hist[1:]
+    for op in body:
+        out.append(op)
+        gap -= 1
+        if gap <= 0:
+            out.append("observe")
+            gap = rng.randint(5, 15)
+    if hist[-1].startswith("destroy"):
+        out += ["observe", hist[-1]]
+    return out
+
+
+def sparse_third(hists, seed):
+    """every third history (deterministically for small-scope lists) runs in sparse mode"""
+    r = random.Random(seed)
+    return [sparsify(r, h) if i % 3 == 1 else h for i, h in enumerate(hists)]
+
+
 class DequeGen:
     name = "deque"
 
@@ -425,6 +452,9 @@ class DequeGen:
                     yield cap, f, s
 
     def small_scope(self, tier, focus=None):
+        return sparse_third(self._small_scope(tier, focus), 12345)
+
+    def _small_scope(self, tier, focus=None):
         out = []
         caps = (1, 2, 4, 8) if tier == "quick" else (1, 2, 4, 8, 16)
         if focus in (None, "reject", "all", "growth", "fault"):
@@ -528,6 +558,9 @@ class DequeGen:
         return out
 
     def fault_seeds(self, tier):
+        return sparse_third(self._fault_seeds(tier), 777)
+
+    def _fault_seeds(self, tier):
         """histories whose every allocating operation is worth refusing (the runner adds fail=k)"""
         out = []
         for cap in (1, 2, 4):
@@ -550,6 +583,10 @@ class DequeGen:
 
     # ------------------------------------------------------------------ random histories
     def random(self, rng, n, tier, focus=None):
+        hs = self._random(rng, n, tier, focus)
+        return [sparsify(rng, h) if rng.random() < 0.34 else h for h in hs]
+
+    def _random(self, rng, n, tier, focus=None):
         out = []
         allf = focus == "all"
         for _ in range(n):
